@@ -101,6 +101,40 @@ CLAIMS["C15"] = dict(
         "finds an entry iff the directory is identical and the name equal ignoring case. Wildcard-to-regex translation is outside the claim (glibc regex).",
    note="bounded string length 3; glibc regcomp/regexec not modelled", ref="5 C15", tech=TECH_CXX)
 
+CLAIMS["C07"] = dict(
+   text="Parsing kernels on arbitrary input, each with CBMC's bounds/pointer/overflow/shift checks on the translated real code and the "
+        "assertion that no exception other than the documented ones escapes: HxC MFM header and track list on files of arbitrary size and "
+        "contents, HFE header and opcode interpreter, catalogue-fragment validation, Opus disc catalogue, FileView/blockwise sector mapping, "
+        "Watford recognition, zlib error-code mapping. The command-level claim (exit status, message on stderr) is covered for the commands "
+        "listed in evidence only.",
+   note="bounded per kernel (evidence lists sizes); FM/MFM track decoder glue, gzip inflate loop and the full mount path are outside the claim (DESIGN.md 10)",
+   ref="5 C07 / 10", tech=TECH_CXX)
+CLAIMS["C10"] = dict(
+   text="DecompressedFile::read on the decompressed temporary file: for every offset/length and every fseek/fread outcome allowed by ISO C the "
+        "bytes returned are those at that offset, short reads shorten the result, errors raise FileIOError; zlib return codes map to the documented errors.",
+   note="the inflate loop itself (zlib) and the choice of image type from the name inside the .gz are outside the claim (zlib not encoded)",
+   ref="5 C10 / 10", tech=TECH_CXX)
+CLAIMS["C14"] = dict(
+   text="The real `free` and `space` commands run on an in-memory Acorn DFS disc with a symbolic catalogue (entry count constant per query: 0 and 2 "
+        "quick, 0..3 thorough; start sectors, lengths and total sector count symbolic, catalogue well-formed): sectors used + sectors free = "
+        "total, used counts the catalogue plus every sector of every file exactly once, `space` lists exactly the gaps between files and their sum "
+        "equals the free total.",
+   note="Watford/Opus/HDFS catalogues are covered for `free` only through catalog_sectors(); more than 3 files outside the bound; std::vector<unsigned> growth replaced by a fixed-capacity model",
+   ref="5 C14 / 10", tech=TECH_CXX)
+CLAIMS["C18"] = dict(
+   text="--verbose adds text on standard error only: smells_like_watford (format probing) and hexdump_bytes run with the flag off and on over the "
+        "same symbolic input give the same result, the same device reads and the same standard-output events.",
+   note="the verbose paths of the HFE/HxC track decoders could not be decided (out of memory even for 2-byte inputs) and are outside the claim",
+   ref="5 C18 / 10", tech=TECH_CXX)
+
+CLAIMS["C12"] = dict(
+   text="The real extract-files command run on an in-memory drive whose single catalogue entry has arbitrary name and directory bytes (all 2^64 values), "
+        "for destination directories with and without a trailing slash and of length 1 and 3: every host file it opens (recorded by the ofstream model) has a path that "
+        "is the destination, one separator, and a final component without any separator; at most the body file and its .inf file are created.",
+   note="extract-unused (names derived from sector numbers only) and the read-only opening of images are argued in DESIGN.md, not solver-decided; "
+        "std::string replaced by a fixed-capacity value model for the encoding (replay and validation use the real std::string)",
+   ref="5 C12 / 10", tech=TECH_CXX)
+
 NOT_APPLICABLE = {}
 
 LEVEL = "model_checking"
